@@ -28,9 +28,14 @@ var c06Stages = []c06Stage{
 	// fail-fast failures, with and without a reader on the error output
 	{"Map", "lift", true, false, true}, {"Map", "lift", true, false, false}, {"FMap", "lift", true, false, true}, {"Map", "try", true, false, true},
 	{"Emit", "lift", true, true, true}, {"Unfold", "lift", true, true, true}, {"Emit", "try", true, true, true},
+	// predicates that fail (an error counts as false); for Partition the right side may never be read
+	{"Partition", "lift", true, false, true}, {"Partition", "try", true, false, false}, {"Filter", "lift", true, false, false}, {"TakeWhile", "try", true, false, false},
 }
 
 func (st c06Stage) site() string {
+	if (st.stage == "Partition" || st.stage == "Filter" || st.stage == "TakeWhile") && st.fails {
+		return st.stage + "/" + st.mode
+	}
 	if st.mode == "pure" || st.stage == "Map+StdErr" || st.stage == "FMap+StdErr" || st.stage == "Emit+StdErr" || (st.stage == "FMap" && !st.fails) {
 		return st.stage
 	}
@@ -131,6 +136,9 @@ func genC06(t *testing.T) {
 					seqs = append([][]string{append(rep("S0", ln), "C0")}, consumerSeqs(st.stage, min(ln, 2))...)
 					if st.stage == "Map+StdErr" || st.stage == "FMap+StdErr" || st.noErr {
 						seqs = [][]string{append(rep("S0", ln), "C0"), rep("R0", min(ln, 2))}
+					}
+					if st.fails && ln > 1 && (st.stage == "Partition" || st.stage == "Filter" || st.stage == "TakeWhile") {
+						base.Fail = base.Inputs[0][1:] // everything after the first element fails
 					}
 					if st.stage == "Throttling" {
 						seqs = append(seqs, rep(fmt.Sprintf("A%d", tick), min(ln, 2)))
